@@ -69,9 +69,9 @@ progs = [
  ("fd_prog_a_blocks1_read_each", "A", "inf", "Blocks(1) Read(8) x3", "quick"),
  ("fd_prog_a_blocks1_collect_each", "A", "inf", "Blocks(1) collect x3", "rot3"),
  ("fd_prog_a_blocks2_read1_frag3", "A", "3", "Blocks(2) Read(1) Read(1) Blocks(1) Read(2)", "rot3"),
- ("fd_prog_a_bytes1_sink_partial", "A", "inf", "Bytes(1) Bytes(1) Sink(takes 1, then Ok(0)) Sink(8) Bytes(1)", "rot3"),
+ ("fd_prog_a_bytes1_sink_partial", "A", "inf", "Bytes(1) Bytes(1) Sink(takes 1, Ok(0), would take 4 more) Sink(8) Bytes(1)", "rot3"),
  ("fd_prog_a_bytes4_sink_wouldblock_retry", "A", "inf", "Bytes(4) Sink(2 then WouldBlock) Sink(WouldBlock at once) Sink(8) All Sink(3 then WouldBlock)", "quick"),
- ("fd_prog_a_all_sink_split", "A", "1", "All Sink(5 then Ok(0)) Sink(1 then WouldBlock) Read(1)", "quick"),
+ ("fd_prog_a_all_sink_split", "A", "1", "Blocks(2) Read(3) All Sink(takes 1, Ok(0), would take 6 more) Sink(1, WouldBlock, would take 2 more) Read(1) - drained data wraps in the ring", "quick"),
  ("fd_prog_a_bytes6_collect_read", "A", "2", "Bytes(6) collect Read(8) Blocks(1) collect", "rot3"),
  ("fd_prog_a_blocks1_sink0", "A", "inf", "Blocks(1) Sink(0) Blocks(1) Sink(8) Sink(8)", "thorough"),
  ("fd_prog_b_blocks1_read_small", "B", "inf", "Blocks(1) Read(3) Blocks(1) Read(3) Blocks(1) Read(1)", "quick"),
